@@ -65,6 +65,36 @@ func runGoneThroughCombinators(p *core.Program, r *core.Report) {
 			}
 		})
 	}
+	// the parts of a PipelineError that stand for success (an exception with a
+	// nil reason) are skipped: somewhere in the predicate the Reason() of a
+	// part is compared with nil
+	skipsOK := false
+	for fn := range scope {
+		core.Instrs(fn, func(ins ssa.Instruction) {
+			cmp, ok := ins.(*ssa.BinOp)
+			if !ok || (cmp.Op != token.EQL && cmp.Op != token.NEQ) {
+				return
+			}
+			for _, side := range []ssa.Value{cmp.X, cmp.Y} {
+				if c, ok := side.(*ssa.Call); ok && c.Call.IsInvoke() && c.Call.Method.Name() == "Reason" {
+					other := cmp.X
+					if other == side {
+						other = cmp.Y
+					}
+					if isNilConst(other) {
+						skipsOK = true
+					}
+				}
+			}
+		})
+	}
+	if sawPipeline {
+		if skipsOK {
+			r.OK(rule, "the reader-gone predicate skips the successful parts of a PipelineError", p.Pos(roots[0].Pos()), "the Reason() of a part is compared with nil")
+		} else {
+			r.Bad(rule, "the reader-gone predicate skips the successful parts of a PipelineError", p.Pos(roots[0].Pos()), "the parts of a PipelineError that stand for success (a non-nil exception with a nil reason) are examined like failures: `run-parallel { range 100000 } { nop } { range 100000 } | nop` raises (reader gone | <nil> | reader gone) instead of ending quietly")
+		}
+	}
 	construct := "the reader-gone predicate looks through error combinators"
 	switch {
 	case sawPipeline && sawUnwrap:
